@@ -135,11 +135,13 @@ class Program:
                 except SyntaxError as e:
                     raise AnalysisError(f"{name}: syntax error {e}")
                 self.modules[name] = ModuleInfo(name, _normalise(tree), src)
-        from .inline import expand_dispatch_tables, expand_helper_comprehensions, propagate_record_fields, fold_unpack_temporaries, inline_unknown_helpers, propagate_attribute_aliases, unroll_literal_loops
+        from .inline import close_partials, expand_dispatch_tables, expand_value_lookups, expand_helper_comprehensions, propagate_record_fields, fold_unpack_temporaries, inline_unknown_helpers, propagate_attribute_aliases, unroll_literal_loops
 
         self.folded_unpacks = fold_unpack_temporaries({name: m.tree for name, m in self.modules.items()})
         self.dispatch_tables = expand_dispatch_tables({name: m.tree for name, m in self.modules.items()})
+        self.value_lookups = expand_value_lookups({name: m.tree for name, m in self.modules.items()})
         self.unrolled_loops = unroll_literal_loops({name: m.tree for name, m in self.modules.items()})
+        self.closed_partials = close_partials({name: m.tree for name, m in self.modules.items()})
         self.expanded_comprehensions = expand_helper_comprehensions({name: m.tree for name, m in self.modules.items()})
         self.inlined_calls = inline_unknown_helpers({name: m.tree for name, m in self.modules.items()})
         self.resolved_records = propagate_record_fields({name: m.tree for name, m in self.modules.items()})
